@@ -84,6 +84,11 @@ func runC13(r *Run) {
 	c10HashChainPod(r, "C13.R2", true)
 	c13PodTemplate(r, c.md5Key)
 	c13Imports(r)
+	// the list whose elements the promotion decision and the clean-up hold pointers to (activeRS = &Items[i])
+	// must not be compacted or reordered in place: otherwise `current` names another replica set and the
+	// really active one loses the protection of the clean-up guards (decided once, under C05)
+	r.ImportFrom(runC05, map[string]string{"C05.R9": "C13.R7"}, map[string]string{
+		"C13.R7": "no reordering/overwriting of the listed replica sets while element addresses (the active replica set) are kept: the object the clean-up protects is the one the decision chose"})
 }
 
 // ---------------------------------------------------------------------------------------------
@@ -267,7 +272,12 @@ func (c *c13Ctx) listed(fn *ssa.Function, v ssa.Value, use *ssa.BasicBlock, dept
 			found := false
 			for _, ci := range callsIn(fn) {
 				e := clientEffect(fn, ci)
-				if e == nil || e.Verb != "List" || unwrap(e.Obj) != ssa.Value(x) {
+				if e == nil || e.Verb != "List" {
+					continue
+				}
+				// the listed object is this allocation (also when the variable holding it lives in a cell
+				// because a closure captures it)
+				if eo := origins(unwrap(e.Obj)); len(eo) != 1 || eo[0] != ssa.Value(x) {
 					continue
 				}
 				call, isCall := ci.(*ssa.Call)
